@@ -358,6 +358,53 @@ theorem groupsBy_perm (rows : List (Row α)) (j : Nat) :
   rw [hfun] at h
   exact h
 
+/-! ### counting -/
+
+/-- over pairwise different values the counts add up to the number of entries that hold one of them -/
+theorem sum_countP_nodup : ∀ (d : List α), d.Nodup → ∀ (m : List α),
+    (d.map fun v => m.countP fun x => Num.eq x v).sum = m.countP fun x => memB x d := by
+  intro d
+  induction d with
+  | nil => intro _ m; simp [memB]
+  | cons a d ih =>
+    intro hd m
+    have hnd := List.nodup_cons.mp hd
+    rw [List.map_cons, List.sum_cons, ih hnd.2 m]
+    induction m with
+    | nil => rfl
+    | cons x m ihm =>
+      have hx : memB x (a :: d) = (Num.eq x a || memB x d) := by
+        have h1 : Num.eq a x = Num.eq x a := by
+          rw [Bool.eq_iff_iff, heq, heq]; exact eq_comm
+        simp [memB, h1]
+      rw [List.countP_cons, List.countP_cons, List.countP_cons, hx]
+      cases h1 : Num.eq x a with
+      | false =>
+        cases h2 : memB x d <;> simp <;> omega
+      | true =>
+        have hxa : x = a := (heq x a).mp h1
+        have h2 : memB x d = false := by
+          cases hh : memB x d with
+          | false => rfl
+          | true => exact absurd ((memB_iff heq x d).mp hh) (hxa ▸ hnd.1)
+        rw [h2]; simp; omega
+
+/-- **the counts of the distinct values of a column add up to the number of rows**: no entry is
+counted for two values, none is left out -/
+theorem counts_partition (l : List α) :
+    ((dedup l).map fun v => l.countP fun x => Num.eq x v).sum = l.length := by
+  rw [sum_countP_nodup heq _ (nodup_dedup heq l) l, List.countP_eq_length]
+  intro x hx
+  exact (memB_iff heq x _).mpr ((mem_dedup heq l x).mpr hx)
+
+/-- a value that no entry holds is counted 0 times, one that some entry holds at least once -/
+theorem countP_eq_zero_iff_absent (l : List α) (v : α) :
+    (l.countP fun x => Num.eq x v) = 0 ↔ v ∉ l := by
+  rw [List.countP_eq_zero]
+  constructor
+  · intro h hv; exact h v hv ((heq v v).mpr rfl)
+  · intro h x hx hxv; exact h ((heq x v).mp hxv ▸ hx)
+
 end eqlaw
 
 /-! ### extraction, sampling -/
